@@ -16,11 +16,33 @@ Proof.
     + by rewrite rle_waiters.
 Qed.
 
-Lemma restore_fold_waiters cfg l : ∀ s, st_waiters (fold_left (rstep cfg) l s) = st_waiters s ∧
-                                        st_now (fold_left (rstep cfg) l s) = st_now s.
+Lemma restore_one_used cfg sid c s : st_used (restore_one cfg sid c s) = st_used s.
 Proof.
-  induction l as [|p l IH]; intros s; [done|]. simpl. destruct (IH (rstep cfg s p)) as [-> ->]. unfold rstep.
-  rewrite restore_one_waiters. by destruct (restore_one_clock cfg p.1 p.2 s) as [-> _].
+  unfold restore_one. destruct (get_lock_create _ _ _) as [e|[o s1]] eqn:Hg.
+  - apply rle_used.
+  - apply glc_shape in Hg as (_ & _ & -> & _). destruct (can_acquire _ _ _).
+    + unfold add_key. cbn [st_locks set]. rewrite lookup_insert. done.
+    + by rewrite rle_used.
+Qed.
+
+Lemma restore_fold_waiters cfg l : ∀ s, st_waiters (fold_left (rstep cfg) l s) = st_waiters s ∧
+                                        st_now (fold_left (rstep cfg) l s) = st_now s ∧
+                                        st_used (fold_left (rstep cfg) l s) = st_used s.
+Proof.
+  induction l as [|p l IH]; intros s; [done|]. simpl. destruct (IH (rstep cfg s p)) as (-> & -> & ->). unfold rstep.
+  rewrite restore_one_waiters, restore_one_used. by destruct (restore_one_clock cfg p.1 p.2 s) as [-> _].
+Qed.
+
+Lemma advance_loop_used cfg target fuel s outs s' o :
+  (measure s < fuel)%nat → (s', o) ∈ advance_loop cfg fuel target s outs → st_used s' = st_used s.
+Proof.
+  intros Hm Hin.
+  eapply (advance_loop_inv cfg target (λ s1 _, st_used s1 = st_used s)) in Hin as (sf & Hu & _ & ->); [|clear s' o Hin|done|done].
+  - unfold finish_advance. simpl. by rewrite gc_used.
+  - intros s1 outs1 d s2 o2 Hu Hd Hf. rewrite <- Hu. destruct d as [tk tm|w]; simpl in Hf.
+    + unfold expire in Hf. destruct (mgr_unlock _ _ _ _) as [[s3 r] o3] eqn:Hmu. injection Hf as <- <-.
+      apply mgr_unlock_spec in Hmu as (x & _ & _ & _ & _ & Hus & _). simpl. rewrite rle_used, Hus. unfold tick. simpl. by rewrite gc_used.
+    + injection Hf as <- <-. simpl. by rewrite gc_used.
 Qed.
 
 (** with no parked call the loop produces no output, parks nothing and ends at the target *)
@@ -45,22 +67,23 @@ Lemma restart_loop_facts (cfg : config) (m : gmap str (list clock)) (F : option 
   let s0 := SState ∅ m ∅ [] F now g false used in
   let s1 := fold_left (rstep cfg) (todo_list m ro) s0 in
   (s', o) ∈ advance_loop cfg (advance_fuel s1) (st_now s1) s1 [] →
-  o = [] ∧ st_now s' = now ∧ st_waiters s' = [] ∧ st_waiters s1 = [].
+  o = [] ∧ st_now s' = now ∧ st_waiters s' = [] ∧ st_waiters s1 = [] ∧ st_used s' = used.
 Proof.
-  intros s0 s1 H. destruct (restore_fold_waiters cfg (todo_list m ro) s0) as [Hw1 Hn1]. fold s1 in Hw1, Hn1. simpl in Hw1, Hn1.
+  intros s0 s1 H. destruct (restore_fold_waiters cfg (todo_list m ro) s0) as (Hw1 & Hn1 & Hu1). fold s1 in Hw1, Hn1, Hu1. simpl in Hw1, Hn1, Hu1.
+  pose proof (advance_loop_used _ _ _ _ _ _ _ (advance_fuel_measure s1) H) as Hu.
   apply nowaiters_loop' in H as (-> & Hn & Hw); [|apply advance_fuel_measure|done|done].
-  split; [done|]. split; [congruence|]. done.
+  split; [done|]. split; [congruence|]. split; [done|]. split; [done|]. congruence.
 Qed.
 
 Lemma restart_facts cfg s order s' o : Inv cfg s → (s', o) ∈ restart cfg order s →
-  o = [] ∧ st_now s' = st_now s ∧ st_waiters s' = [] ∧
+  o = [] ∧ st_now s' = st_now s ∧ st_waiters s' = [] ∧ st_used s' = st_used s ∧
   (c_file cfg = true → 0 < c_default_lt cfg → st_sessions s' = default ∅ (st_file s)).
 Proof.
   intros HI H. unfold restart in H. cbv zeta in H. rewrite restore_fold_flat in H.
   destruct (c_file cfg) eqn:Hfile.
-  2:{ apply restart_loop_facts in H as (? & ? & ? & _). split_and!; try done. }
-  pose proof (restart_loop_facts _ _ _ _ _ _ _ _ _ H) as (-> & Hn & Hw & Hw1).
-  split; [done|]. split; [done|]. split; [done|]. intros _ Hpos.
+  2:{ apply restart_loop_facts in H as (? & ? & ? & _ & ?). split_and!; try done. }
+  pose proof (restart_loop_facts _ _ _ _ _ _ _ _ _ H) as (-> & Hn & Hw & Hw1 & Hu).
+  split; [done|]. split; [done|]. split; [done|]. split; [done|]. intros _ Hpos.
   set (m := default ∅ (st_file s)) in *.
   set (todo := todo_list m (reload_order order m)) in *.
   set (s0 := SState ∅ m ∅ [] (st_file s) (st_now s) (st_now s + c_gc_interval cfg) false (st_used s)) in *.
@@ -98,7 +121,7 @@ Lemma track_restart_ok X cfg i order s s' o t :
   cfg_ok cfg → Inv cfg s → TR X cfg s t → (s', o) ∈ restart cfg order s →
   TR X cfg s' (track_step0 cfg i (ERestart order) o t).
 Proof.
-  intros Hcfg HI HT Hin. destruct (restart_facts _ _ _ _ _ HI Hin) as (-> & Hnow & Hw & Hsess).
+  intros Hcfg HI HT Hin. destruct (restart_facts _ _ _ _ _ HI Hin) as (-> & Hnow & Hw & Hused & Hsess).
   pose proof (tr_holds _ _ _ _ HT) as HH. destruct (inv_views _ _ HI) as [Hv _]. simpl.
   split; simpl.
   - rewrite Hnow. apply (tr_now _ _ _ _ HT).
@@ -138,5 +161,6 @@ Proof.
       split; try done; try (by intros ? ?%elem_of_nil); try (by intros ? ? ?%elem_of_nil); [constructor|].
       intros c Hc. by apply (Hneg Hn) in Hc.
   - rewrite Hw. constructor.
+  - destruct (tr_keys _ _ _ _ HT) as (K1 & K2 & _). unfold KI. simpl. rewrite Hused, Hw. split_and!; [done|done|by intros w ?%elem_of_nil].
   - apply (tr_fail _ _ _ _ HT).
 Qed.
